@@ -120,6 +120,8 @@ func (w *c11World) valueLen(size string, klen int) int {
 	switch size {
 	case "T":
 		return 1
+	case "Z": // empty value (the DMap layer never stores one, the engine accepts it)
+		return 0
 	case "M":
 		return int(w.ts)/3 - meta - klen
 	case "L": // just fits into an empty table: entry size = ts-1
@@ -760,7 +762,7 @@ func c11Enumerate(maxLen int, ts uint64, idleNow bool, emit func(c11Case)) int {
 func c11RandomCase(rng *rand.Rand, n int) c11Case {
 	tss := []uint64{128, 256, 1024}
 	c := c11Case{TS: tss[rng.Intn(len(tss))], IdleNow: rng.Intn(2) == 0}
-	sizes := []string{"T", "M", "M", "H", "L"}
+	sizes := []string{"T", "M", "M", "H", "L", "Z"}
 	// each case has its own operation mix, so that some are put-heavy and others churn
 	wPut, wRaw, wDel, wTTL, wC, wT := 4+rng.Intn(8), rng.Intn(4), 1+rng.Intn(5), rng.Intn(3), rng.Intn(4), rng.Intn(4)
 	total := wPut + wRaw + wDel + wTTL + wC + wT
